@@ -42,10 +42,7 @@ func C05(c *Ctx) {
 				continue
 			}
 			var enc, enc2 []byte
-			var before [160]byte
-			if raw.PointOK() {
-				before = raw.PointBytes(p)
-			}
+			before := raw.PointSnap(p)
 			pv := catch(func() { enc = p.Bytes(); enc2 = p.Bytes() })
 			c.Eval(nontriv, want[:], []byte(how))
 			c.Tally("build:" + buildKey(how))
@@ -65,7 +62,7 @@ func C05(c *Ctx) {
 			}
 			// Bytes may not change what the point IS (a value-preserving internal rewrite is
 			// not forbidden by this property; a concurrent reader would be C18's business)
-			if raw.PointOK() && raw.PointBytes(p) != before {
+			if raw.PointSnap(p) != before {
 				c.Tally("Bytes rewrote its receiver (recorded, not a violation by itself)")
 			}
 			if why, _ := checkPoint(p, m); why != "" {
